@@ -671,7 +671,11 @@ FAILURES = ['success', 'missing_query', 'missing_stats', 'missing_markers',
             'query_is_dir', 'csc_query', 'worker_raise', 'worker_exit',
             # reach the package's multi-line messages that carry a path
             # between newlines (score_utils.read_precomputed_stats)
-            'stats_no_sum', 'stats_no_n_cells']
+            'stats_no_sum', 'stats_no_n_cells',
+            # results stored in the query file (obsm_key): the file already
+            # carries the key (e.g. the same run a second time) -> error with
+            # obsm_clobber False, overwrite with True; and a first write
+            'obsm_exists_noclobber', 'obsm_exists_clobber', 'obsm_fresh']
 
 
 def build_case(rng, wd, failure, awkward=True, use_tmp=None):
@@ -752,6 +756,13 @@ def build_case(rng, wd, failure, awkward=True, use_tmp=None):
         b = stats.read_bytes()
         stats.write_bytes(b[:len(b) // 2] if rng.random() < 0.5
                           else b'junk' * 100)
+    if failure.startswith('obsm_exists'):
+        import anndata
+        import pandas as pd
+        a = anndata.read_h5ad(query)
+        a.obsm['ctm_results'] = pd.DataFrame(
+            {'x': np.arange(a.shape[0], dtype=float)}, index=a.obs.index)
+        a.write_h5ad(query)
     if failure in ('stats_no_sum', 'stats_no_n_cells'):
         with h5py.File(stats, 'a') as f:
             del f['sum' if failure == 'stats_no_sum' else 'n_cells']
@@ -767,6 +778,9 @@ def build_case(rng, wd, failure, awkward=True, use_tmp=None):
         n_processors=rng.choice([1, 2]), chunk_size=rng.choice([3, 10]),
         bootstrap_iteration=rng.choice([1, 5]), cloud_safe=True,
         csv=rng.random() < 0.7)
+    if failure.startswith('obsm_'):
+        cfg['obsm_key'] = 'ctm_results'
+        cfg['obsm_clobber'] = failure == 'obsm_exists_clobber'
     return cfg, {'failure': failure, 'dirs': [str(d_in), str(d_out),
                                               str(d_tmp), str(d_mk)],
                  'encoding': encoding}
